@@ -16,17 +16,25 @@ Inductive ostep :=
 | OProbe (jq : positive) (pre : bool) (ts : list otask) (vjob vnp : verdict)
     (* all three exported gates evaluated in the current state, nothing charged *)
 | OAdmit (jq : positive) (pre : bool) (ts : list otask) (vjob : verdict) (a : adm)
-| ORelease (tid : positive).
+| ORelease (tid : positive)
+| OCommitOk                       (* Statement.Commit of the preceding admitted job, every Cache.Bind succeeded *)
+| OBindFail (tid : positive).     (* Statement.Commit of the preceding admitted job, Cache.Bind failed for tid *)
 
 (** Allocated as seen through Session.QueueAllocatedResources (GPUs pass through
     NewResourceRequirements, which truncates quantities >= 1 to whole GPUs) *)
 Record oqueue := { oq_id : positive; oq_alloc : rq }.
 
+(** what is observed after a step: the plugin's counters, and -- independently
+    of the plugin -- the tasks that really hold resources: the pods of the
+    session's jobs (as the job's pod map has them after the step) whose status
+    is Allocated, Pipelined, Binding, Bound or Running *)
+Record obs := { ob_queues : list oqueue; ob_holders : list positive }.
+
 Record case := {
   k_queues : list queue;
   k_init : list (positive * bool * otask);    (* the snapshot's running tasks: queue, preemptible, task *)
-  k_init_obs : option (list oqueue);
-  k_steps : list (ostep * option (list oqueue));
+  k_init_obs : option obs;
+  k_steps : list (ostep * option obs);
 }.
 
 (** ** helpers *)
@@ -44,13 +52,21 @@ Definition res_is {A} (e : A -> A -> bool) (r : result A) (x : A) : bool :=
 Definition proj_gpu (g : Q) : Q := let a := with_gpus g in ext_gpus (g_portion a) (g_count a).
 Definition proj (x : rq) : rq := {| r_cpu := r_cpu x; r_mem := r_mem x; r_gpu := proj_gpu (r_gpu x) |}.
 
-Definition obs_agree (alloc_of : positive -> option rq) (o : option (list oqueue)) : bool :=
+Definition obs_agree (alloc_of : positive -> option rq) (o : option obs) : bool :=
   match o with
   | None => true
-  | Some l => forallb (fun oq => match alloc_of (oq_id oq) with
-                                 | Some a => rq_eqb (proj a) (oq_alloc oq)
-                                 | None => false
-                                 end) l
+  | Some ob => forallb (fun oq => match alloc_of (oq_id oq) with
+                                  | Some a => rq_eqb (proj a) (oq_alloc oq)
+                                  | None => false
+                                  end) (ob_queues ob)
+  end.
+
+(** the model's ledger and the pods that really hold resources are the same set of tasks *)
+Definition holders_agree (led : list entry) (o : option obs) : bool :=
+  match o with
+  | None => true
+  | Some ob => let ids := map e_task led in
+               forallb (fun i => mem i (ob_holders ob)) ids && forallb (fun i => mem i ids) (ob_holders ob)
   end.
 
 Definition model_alloc (qs : list queue) (id : positive) : option rq :=
@@ -109,14 +125,26 @@ Definition agree_step (fuel : nat) (s : state) (x : ostep) : bool * option state
       | Done s' => (true, Some s')
       | _ => (false, None)
       end
+  | OCommitOk =>
+      match do_event fuel s CommitOk with
+      | Done s' => (true, Some s')
+      | _ => (false, None)
+      end
+  | OBindFail tid =>
+      (* the failing task must be one the model has charged; then the model's BindFail event *)
+      match do_event fuel s (BindFail tid) with
+      | Done s' => (mem tid (map e_task (s_ledger s)), Some s')
+      | _ => (false, None)
+      end
   end.
 
-Fixpoint agree_steps (fuel : nat) (s : state) (xs : list (ostep * option (list oqueue))) : bool :=
+Fixpoint agree_steps (fuel : nat) (s : state) (xs : list (ostep * option obs)) : bool :=
   match xs with
   | [] => true
   | (x, o) :: r =>
       match agree_step fuel s x with
-      | (ok, Some s') => ok && obs_agree (model_alloc (s_queues s')) o && agree_steps fuel s' r
+      | (ok, Some s') => ok && obs_agree (model_alloc (s_queues s')) o && holders_agree (s_ledger s') o
+                         && agree_steps fuel s' r
       | (ok, None) => ok && match r with [] => true | _ => false end
       end
   end.
@@ -141,15 +169,20 @@ Fixpoint load_init (fuel : nat) (s : state) (l : list (positive * bool * otask))
 Definition model_agrees (k : case) : bool :=
   let fuel := default_fuel (k_queues k) in
   match load_init fuel {| s_queues := k_queues k; s_ledger := [] |} (k_init k) with
-  | Some s => obs_agree (model_alloc (s_queues s)) (k_init_obs k) && agree_steps fuel s (k_steps k)
+  | Some s => obs_agree (model_alloc (s_queues s)) (k_init_obs k) && holders_agree (s_ledger s) (k_init_obs k)
+              && agree_steps fuel s (k_steps k)
   | None => false
   end.
 
-(** ** the property itself on the observed verdicts and charges
+(** ** the property itself on the observed verdicts, charges and pod statuses
 
-    Ground truth is rebuilt from the charges the real code applied
-    (AcceptedResource of every task the real gates let through); the
-    model's gates and handlers are not consulted. *)
+    Ground truth is rebuilt from the real pods: a task counts from the moment
+    the real gates let it through, with the charge the real code applied
+    (AcceptedResource), for as long as its pod really holds resources
+    ([ob_holders]: status Allocated / Pipelined / Binding / Bound / Running in
+    the session after the step). Neither the model's gates and handlers nor
+    the plugin's counters are consulted for it; the plugin's counters are then
+    compared with it. *)
 
 Definition obs_entry (jq : positive) (pre : bool) (o : otask) : option entry :=
   match ot_charge o with
@@ -177,7 +210,7 @@ Definition raise_within_b (qs : list queue) (led led' : list entry) : bool :=
     all_resources) qs.
 
 (** the counters the real plugin reports equal the sum over the charged tasks *)
-Definition counters_obs_ok (qs : list queue) (base : positive -> option rq) (led : list entry) (o : option (list oqueue)) : bool :=
+Definition counters_obs_ok (qs : list queue) (base : positive -> option rq) (led : list entry) (o : option obs) : bool :=
   obs_agree (fun id => match base id with
                        | Some b => Some {| r_cpu := Qred (r_cpu b + charged false qs led id CPU);
                                            r_mem := Qred (r_mem b + charged false qs led id MEM);
@@ -185,7 +218,27 @@ Definition counters_obs_ok (qs : list queue) (base : positive -> option rq) (led
                        | None => None
                        end) o.
 
-Fixpoint monitor_steps (qs : list queue) (led : list entry) (xs : list (ostep * option (list oqueue))) : bool :=
+(** the truth after a step: of the tasks that were let through so far
+    ([cands], with their charges) those whose pods still hold resources. A pod
+    holding resources that no gate ever let through has no business there. *)
+Definition settle (cands : list entry) (holders : list positive) : option (list entry) :=
+  if forallb (fun i => mem i (map e_task cands)) holders
+  then Some (filter (fun e => mem (e_task e) holders) cands)
+  else None.
+
+(** one observed step: [cands] = truth before plus what this step let through *)
+Definition monitor_obs (qs : list queue) (led cands : list entry) (o : option obs) : option (list entry) :=
+  match o with
+  | None => Some cands
+  | Some ob =>
+      match settle cands (ob_holders ob) with
+      | Some led' =>
+          if raise_within_b qs led led' && counters_obs_ok qs (model_alloc qs) led' o then Some led' else None
+      | None => None
+      end
+  end.
+
+Fixpoint monitor_steps (qs : list queue) (led : list entry) (xs : list (ostep * option obs)) : bool :=
   match xs with
   | [] => true
   | (OProbe _ _ _ _ _, _) :: r => monitor_steps qs led r
@@ -194,19 +247,25 @@ Fixpoint monitor_steps (qs : list queue) (led : list entry) (xs : list (ostep * 
       | AdmYes =>
           match obs_entries jq pre ts with
           | Some es =>
-              let led' := es ++ led in
-              verdict_eqb vjob Schedulable
-              && raise_within_b qs led led'
-              && counters_obs_ok qs (model_alloc qs) led' o
-              && monitor_steps qs led' r
+              verdict_eqb vjob Schedulable &&
+              match monitor_obs qs led (es ++ led) o with
+              | Some led' => monitor_steps qs led' r
+              | None => false
+              end
           | None => false
           end
-      | AdmNo => counters_obs_ok qs (model_alloc qs) led o && monitor_steps qs led r
+      | AdmNo => match monitor_obs qs led led o with
+                 | Some led' => monitor_steps qs led' r
+                 | None => false
+                 end
       | AdmPanic => true
       end
-  | (ORelease tid, o) :: r =>
-      match take_entry tid led with
-      | Some (_, led') => counters_obs_ok qs (model_alloc qs) led' o && monitor_steps qs led' r
+  | (ORelease _, o) :: r | (OCommitOk, o) :: r | (OBindFail _, o) :: r =>
+      (* nothing is let through by these steps: whatever the pods say afterwards
+         must be within what was held before, must not raise any queue above a
+         cap, and must be what the plugin's counters say *)
+      match monitor_obs qs led led o with
+      | Some led' => monitor_steps qs led' r
       | None => false
       end
   end.
